@@ -41,6 +41,7 @@ CONTRACTS = {
     (V, 'ManagerL._add_variable_group'): {
         'property': ['C10', 'C11'], 'source': (V, 'VariablesManager._add_variable_group'),
         'params': {'self': 'obj:ManagerL', 'vg': 'obj:GroupView'},
+        'modifies': ['self._groups', 'self._formula._numvar'],
         'requires': MI + ['implies(vg.single, vg.ids_hi == vg.ids_lo + 1)'],
         'raises': {'ValueError': 'vg.ids_lo < vg.ids_hi and vg.ids_lo <= self._formula._numvar'},
         'ensures': MI + ['len(self._groups) == len(old(self._groups)) + 1',
